@@ -147,9 +147,16 @@ def run(tier, seed):
         "programs are stepped a bounded number of times (%d)" % PROGRAM_STEPS,
     ]
     rng = vplib.rng_for(seed, "C07")
+    phases = {}
+    t_phase = [time.time()]
+
+    def phase(name):
+        phases[name] = round(time.time() - t_phase[0], 1)
+        t_phase[0] = time.time()
     # 1. sync
-    sy = vplib.sync()
+    sy = vplib.sync(["panicsites"])   # only this check's table (the Coq cone of C07 depends on no other generated file)
     inv_info = check_inventory(v, sy)
+    phase("sync+inventory")
     # 2. prove
     pr = vplib.prove(PID, PROOF_DIRS, extra_targets=["Extract/IdxExtract.vo"])
     for f in pr["failures"]:
@@ -161,6 +168,7 @@ def run(tier, seed):
         "full_statement": "C07_full_statement is a Definition (not proved for a model of the whole runtime); C07_run_from_step proves it from the one-step premise",
         "refuted_witnesses_for_fixed_code": "C07_fixed_defects_refuted (models of the code before each fix: commit reach their Panic point)",
     }
+    phase("prove")
     # 3. build
     ok, out = vplib.cargo_build("debug", bins=["nopanic"])
     if not ok:
@@ -175,6 +183,7 @@ def run(tier, seed):
     okm, outm = vplib.ocaml_build("idx") if os.path.exists(vplib.OCAML_BUILD + "/idx_model.ml") else (False, "no extracted model")
     if not okm:
         v.tie_failure("index model driver build failed: " + outm[-300:])
+    phase("build")
     stats = collections.Counter()
     samples, panics = [], []
     listed = {f["id"] for f in vplib.findings_for(PID)}
@@ -214,6 +223,7 @@ def run(tier, seed):
                             v.tie_failure("correspondence idx: %s impl=%s model=%s" % (pa[0], pa[1], pb[1]))
                     if len(samples) < 4 and corr["compared"] % 30011 == 1:
                         samples.append({"case": pa[0], "impl": pa[1], "model": pb[1]})
+        phase("correspondence")
         # 5. direct search on the implementation.  When a tie is broken the thorough corpus is used.
         search_tier = "thorough" if (tier == "thorough" or v.tie_failures) else "quick"
         cases = c07_gen.op_cases(search_tier, rng) + c07_gen.nested_cases(search_tier, rng) + c07_gen.program_cases(search_tier, rng)
@@ -247,6 +257,7 @@ def run(tier, seed):
                 os.unlink(e)
             except OSError:
                 pass
+    phase("direct search")
     # 6. decide
     seen_msgs = set()
     for (c, result, detail, profile) in panics:
@@ -276,6 +287,7 @@ def run(tier, seed):
                 "grammar-generated expressions (depth <= 4) seeded with boundary literals, both stores, three hosts on a third; a case is non-trivial when it was "
                 "executed (Ok / Err / step limit), i.e. not rejected by the compiler and not unbuildable on that store",
         "samples": samples,
+        "phase_wall_s": phases,
         "inventory": inv_info,
         "correspondence": {"cases": corr["cases"], "compared": corr["compared"], "disagreements": corr["disagreements"],
                            "by_function": dict(corr["by_function"]), "impl_classes": dict(corr["classes"])},
